@@ -45,6 +45,10 @@ class Py(CodeWriter):
         self.dropped = {}
         self.lines = {}        # qualname -> pyx line
         self.scope = []
+        self.typed = False     # second pass: casts keep their C type
+        self.ctypes = {}       # qualname -> {'args': {name: ctype}, 'ret': ..}
+        self.cattrs = {}       # class -> {attribute: ctype}
+        self.typedefs = {}     # name -> ctype
 
     def drop(self, what):
         self.dropped[what] = self.dropped.get(what, 0) + 1
@@ -61,6 +65,38 @@ class Py(CodeWriter):
 
     def visit_CTypeDefNode(self, node):
         self.drop('ctypedef')
+        try:
+            nm = self._funcname(node.declarator)
+            self.typedefs[nm] = self._ctype(node.base_type, node.declarator)
+        except Exception:
+            pass
+
+    def _ctype(self, bt, decl=None):
+        """C type of a declaration as text: 'unsigned int', 'u_int*', ..."""
+        name = getattr(bt, 'name', None)
+        if name is None:
+            return '?'
+        signed = getattr(bt, 'signed', 1)
+        longness = getattr(bt, 'longness', 0)
+        parts = []
+        if signed == 0:
+            parts.append('unsigned')
+        if longness == -1:
+            parts.append('short')
+        parts += ['long'] * max(0, longness)
+        if not (name == 'int' and (longness or signed == 0)) or not parts:
+            parts.append(name)
+        elif name == 'int' and signed == 0 and not longness:
+            parts.append('int')
+        t = ' '.join(parts)
+        d = decl
+        while d is not None and not isinstance(d, Nodes.CNameDeclaratorNode):
+            if isinstance(d, Nodes.CPtrDeclaratorNode):
+                t += '*'
+            elif isinstance(d, Nodes.CArrayDeclaratorNode):
+                t += '[]'
+            d = getattr(d, 'base', None)
+        return t
 
     def visit_CStructOrUnionDefNode(self, node):
         self.drop('struct/union definition')
@@ -85,6 +121,18 @@ class Py(CodeWriter):
         # keep initialisers: cdef int x = 3  ->  x = 3
         any_init = False
         bt = node.base_type
+        try:
+            for d_ in node.declarators:
+                nm_ = self._funcname(d_)
+                ty_ = self._ctype(bt, d_)
+                if self.scope and self.scope[-1][:1].isupper() and \
+                        len(self.scope) == 1:
+                    self.cattrs.setdefault(self.scope[-1], {})[nm_] = ty_
+                elif self.scope:
+                    self.ctypes.setdefault('.'.join(self.scope), dict(
+                        args={}, ret='?')).setdefault('locals', {})[nm_] = ty_
+        except Exception:
+            pass
         if isinstance(bt, Nodes.TemplatedTypeNode) and self.scope and \
                 not self.scope[-1][:1].isupper():
             # `cdef double [n]e`, `cdef double [3][3]K`: local C arrays
@@ -223,6 +271,23 @@ class Py(CodeWriter):
         while not isinstance(fd, Nodes.CFuncDeclaratorNode):
             fd = fd.base
         self.drop('C signature (types, nogil, noexcept, inline)')
+        try:
+            q = '.'.join(self.scope + [self._funcname(fd.base)])
+            rec = dict(args={}, ret=self._ctype(node.base_type, None))
+            for a in fd.args:
+                d = a.declarator
+                has_name = False
+                while d is not None:
+                    if isinstance(d, Nodes.CNameDeclaratorNode):
+                        has_name = bool(d.name)
+                        break
+                    d = getattr(d, 'base', None)
+                if has_name:
+                    rec['args'][self._argname(a)] = self._ctype(
+                        a.base_type, a.declarator)
+            self.ctypes[q] = rec
+        except Exception:
+            pass
         self._emit_def(self._funcname(fd.base), fd.args, node.body, node.pos)
 
     def visit_DefNode(self, node):
@@ -327,12 +392,24 @@ class Py(CodeWriter):
                            or getattr(bt, 'longness', 0)) and \
                 name not in FLOAT_TYPES:
             self.drop('<int-type> cast -> int()')
+            if self.typed:
+                self.put('c_cast(%r, ' % self._ctype(bt, None))
+                self.visit(node.operand)
+                self.put(')')
+                return
             self.put('int(')
             self.visit(node.operand)
             self.put(')')
         elif not is_ptr and name in FLOAT_TYPES:
             self.drop('<double> cast -> float()')
             self.put('float(')
+            self.visit(node.operand)
+            self.put(')')
+        elif self.typed and not is_ptr and name:
+            # a typedef'd integer type or an extension type: the contract's
+            # model of c_cast decides (identity for non-integer types)
+            self.drop('<type> cast removed')
+            self.put('c_cast(%r, ' % self._ctype(bt, None))
             self.visit(node.operand)
             self.put(')')
         else:
@@ -521,6 +598,13 @@ class Py(CodeWriter):
                     first = False
                     self.put(str(getattr(it.key, 'value', getattr(it.key, 'name', '?'))) + '=')
                     self.visit(it.value)
+            else:
+                # f(**mapping): keep the mapping (it was dropped before)
+                if not first:
+                    self.put(', ')
+                first = False
+                self.put('**')
+                self.visit(kw)
         self.put(')')
 
     def visit_TryFinallyStatNode(self, node):
@@ -551,7 +635,15 @@ def convert(path):
     w = Py()
     w.visit(tree)
     text = '\n'.join(w.result.lines) + '\n'
-    return dict(text=text, lines=w.lines, dropped=w.dropped)
+    # second pass for machine-integer contracts: the same text, except that
+    # integer casts keep their C type (c_cast('<type>', e))
+    tree2 = parse_from_strings(path.split('/')[-1].split('.')[0], src, **kw)
+    w2 = Py()
+    w2.typed = True
+    w2.visit(tree2)
+    typed = '\n'.join(w2.result.lines) + '\n'
+    return dict(text=text, lines=w.lines, dropped=w.dropped, typed_text=typed,
+                ctypes=w.ctypes, cattrs=w.cattrs, typedefs=w.typedefs)
 
 
 if __name__ == '__main__':
